@@ -11,6 +11,11 @@ from .values import Builtin, ClassVal, Coro, Model, Obj, Opaque
 
 
 class FileHandle(Model):
+    """Abstract backend file (assumed contract, DESIGN.md C01): sequential access after an optional seek.
+    old  = content when opened ('wb' truncates it to b"");  off = position set by seek (0 if none; 'ab': end of file);
+    W    = bytes written since (every write lands at the current position, which then advances);
+    done / remaining = bytes already returned by read / still to be returned (their concatenation is old[off:])."""
+
     model_name = "file"
 
     def __init__(self, path, mode, tag):
@@ -19,6 +24,31 @@ class FileHandle(Model):
         self.mode = mode
         self.tag = tag
         self.closed = False
+        self.before = fresh("bytes", "file_before").t  # what the path held before this open
+        self.old = z3.StringVal("") if mode == "wb" else self.before
+        self.off = None  # z3 Int once seek() was called
+        self.seeks = 0
+        self.W = z3.StringVal("")
+        self.done = z3.StringVal("")
+        self.remaining = self.old
+        self.writes = 0
+
+    def start(self):
+        """position of the first write"""
+        n = z3.Length(self.old)
+        if self.mode == "ab":
+            return n  # append mode: every write goes to the end, whatever was seeked
+        return self.off if self.off is not None else z3.IntVal(0)
+
+    def content(self):
+        """bytes of the file now"""
+        n = z3.Length(self.old)
+        st = self.start()
+        pad = z3.Function("zeros", z3.IntSort(), z3.StringSort())
+        head = z3.If(st <= n, z3.SubString(self.old, 0, st), z3.Concat(self.old, pad(st - n)))
+        wl = z3.Length(self.W)
+        tail = z3.SubString(self.old, st + wl, z3.If(n - st - wl > 0, n - st - wl, 0))
+        return z3.If(wl == 0, self.old, z3.Concat(head, self.W, tail))
 
 
 class ListerModel(Model):
@@ -125,11 +155,38 @@ def make_backend(sess):
     cb = Builtin("backend.close", close_f)
     cb.is_method = True
     cls.attrs["close"] = cb
-    op("seek")
-    op("write")
+    def seek_res(i, args, k):
+        h, off = args[0], args[1]
+        h.off = as_int(off)
+        h.seeks += 1
+        n = z3.Length(h.old)
+        h.remaining = z3.SubString(h.old, h.off, z3.If(n - h.off > 0, n - h.off, 0))
+        h.done = z3.StringVal("")
+        i.ctx.event("file.seek", h, off)
+        return None
+
+    op("seek", seek_res)
+
+    def write_res(i, args, k):
+        h, data = args[0], args[1]
+        h.W = z3.Concat(h.W, term(data))
+        h.writes += 1
+        i.ctx.event("file.write", h, data)
+        return None
+
+    op("write", write_res)
 
     def read_res(i, args, k):
-        return fresh("bytes", "filedata")
+        h, n = args[0], args[1]
+        d = fresh("bytes", "filedata")
+        rest = fresh("bytes", "filerest")
+        A = i.ctx.assume
+        A(h.remaining == z3.Concat(d.t, rest.t))
+        A(z3.Length(d.t) <= as_int(n))
+        A((z3.Length(d.t) == 0) == (z3.Length(h.remaining) == 0))
+        h.remaining = rest.t
+        h.done = z3.Concat(h.done, d.t)
+        return d
 
     op("read", read_res)
 
